@@ -13,10 +13,10 @@ def build_sequence(seed, thorough=False, focus=None, n_records=None, n_descs=Non
     focus = (field type, value class): the first descriptor has a field of that type and the first record
     carries a value of that class in it."""
     rng = random.Random(seed)
-    b = gen.Builder(rng, thorough=thorough, max_depth=2 if nested else 0)
     pool = types
     if pool is None and not nested:
         pool = [t for t in gen.ALL_FIELD_TYPES if not t.startswith("record")]
+    b = gen.Builder(rng, thorough=thorough, max_depth=2 if nested else 0, types=pool)
     n_descs = n_descs or rng.choice([1, 1, 2, 3, 5])
     descs = []
     for i in range(n_descs):
